@@ -258,7 +258,7 @@ func main() {
 	lib.Init()
 	reg := lib.Reg()
 	w := c.NewWatch(5*time.Second, 384<<20)
-	total := c.Pick(9600, 480000) // cases; each expands to ~60-250 decode calls
+	total := c.Pick(9600, 240000) // cases; each expands to ~60-250 decode calls
 	per := total / c.NBatch
 	from, to := c.Range(per)
 	stateClasses := []string{"none", "natural", "natural", "natural", "zero-fields", "zero-length-unknown", "all-variable", "one-byte-fields",
